@@ -1018,8 +1018,6 @@ class SVG:
         self._update_etree()
 
         good_ns = {svgns(), xlinkns()}
-        if self.svg_root.nsmap.get(None) == svgns():
-            good_ns.add(None)
 
         el_to_rm = []
         for el in self.svg_root.getiterator("*"):
